@@ -18,7 +18,14 @@ Second wave (one generated file per source area, table WAVE2 below):
   str -> list Z (code points); pathlib.Path -> Path.v's ppath (raw segments) with the pathlib
   operations mapped to the model primitives of theories/Path.v; Optional[int] -> option Z;
   `return` inside a `for` (the loop state carries `option <return type>` and the loop breaks);
-  truthiness of str/list/int in `if`; module-level constants are inlined by value.
+  truthiness of str/list/int in `if`; module-level constants are inlined by value;
+  methods that only read one property of self (kind 'method': the property is an explicit parameter,
+  e.g. ArchiveFile's attribute word) or thread an object state (kind 'objmethod': AES buffer + abstract
+  cipher, Section variables enc/dec); `while` on explicit fuel (while_m, Err EFuel); `x is None` on an
+  Optional -> match; `return a if c else b`; `raise E(..)` -> Err EOther; the stat module (PyStat.v),
+  two regular-expression families, int(str of digits) and dict literals (PyRe.v), str methods (PyStr.v).
+  A name like `stat`, `re`, `os`, `pathlib`, `zlib`, `posixpath` is taken for the standard module only
+  if the source module binds it by a plain `import` and nowhere else.
 A refused second-wave function is emitted as a placeholder returning `Err EOther` (so that the
 other generated functions still build); the refusal is in translate_report.json and every check
 that lists the function in GEN_DEPS reports its property as no longer shown.
@@ -327,6 +334,32 @@ class FnTr:
             return v
         return None
 
+    def is_module(self, root):
+        """`root` refers, in this function, to the standard module of that name: bound at module level only by a plain
+        `import root` (no alias, no other binding anywhere at module level) and not bound locally"""
+        if self.module is None or root in self.ty or root in self.local_names():
+            return False
+        plain, other = 0, 0
+        for st in ast.walk(self.module):
+            if isinstance(st, ast.Import):
+                for a in st.names:
+                    bound = (a.asname or a.name).split(".")[0]
+                    if bound == root:
+                        if a.asname is None and a.name.split(".")[0] == root and st in self.module.body:
+                            plain += 1
+                        else:
+                            other += 1
+            elif isinstance(st, ast.ImportFrom):
+                other += sum(1 for a in st.names if (a.asname or a.name) == root or a.name == "*") if st in self.module.body else 0
+                other += sum(1 for a in st.names if (a.asname or a.name) == root) if st not in self.module.body else 0
+            elif isinstance(st, (ast.FunctionDef, ast.ClassDef)) and st.name == root and st in self.module.body:
+                other += 1
+            elif isinstance(st, ast.Name) and st.id == root and isinstance(st.ctx, (ast.Store, ast.Del)):
+                other += 1
+            elif isinstance(st, (ast.Global, ast.Nonlocal)) and root in st.names:
+                other += 1
+        return plain >= 1 and other == 0
+
     def dotted(self, e):
         if isinstance(e, ast.Name):
             return e.id
@@ -337,7 +370,7 @@ class FnTr:
 
     def attribute(self, e):
         d = self.dotted(e)
-        if d in EXTERNAL_CONSTANTS and d.split(".")[0] not in self.ty:
+        if d in EXTERNAL_CONSTANTS and self.is_module(d.split(".")[0]):
             return [], str_lit(EXTERNAL_CONSTANTS[d]), "str"
         if self.kind == "objmethod" and isinstance(e.value, ast.Name) and e.value.id == "self" \
                 and e.attr in self.spec["state"] and "self" not in self.ty:
@@ -638,7 +671,7 @@ class FnTr:
         if e.keywords:
             self.refuse(e, "keyword arguments")
         d = self.dotted(f)
-        if d == "pathlib.Path" and "pathlib" not in self.ty:
+        if d == "pathlib.Path" and self.is_module("pathlib"):
             # pathlib.Path(s) / pathlib.Path(*segments): the path object whose raw segments are the arguments
             if len(args) == 1 and isinstance(args[0], ast.Starred):
                 p, v, t = self.expr(args[0].value)
@@ -653,7 +686,7 @@ class FnTr:
                 pre += p
                 vs.append(v)
             return pre, "([%s] : ppath)" % "; ".join(vs), "path"
-        if d in self.spec.get("externs", {}) and d.split(".")[0] not in self.ty:
+        if d in self.spec.get("externs", {}) and self.is_module(d.split(".")[0]):
             fn, ats, rt = self.spec["externs"][d]
             if len(args) != len(ats):
                 self.refuse(e, "arity of " + d)
@@ -681,14 +714,14 @@ class FnTr:
                 return p + ["do %sr <- %s %s %s;" % (t1, self.spec["cipher_ops"][f.attr], sv, v),
                             "let '(%s, %s) := %sr in" % (sv, t1, t1)], t1, "bytes"
             self.refuse(e, "method self.%s.%s" % (f.value.attr, f.attr))
-        if d is not None and d.startswith("stat.") and "stat" not in self.ty and f.attr in STAT_FUNCTIONS and len(args) == 1:
+        if d is not None and d.startswith("stat.") and self.is_module("stat") and f.attr in STAT_FUNCTIONS and len(args) == 1:
             fn, rt = STAT_FUNCTIONS[f.attr]
             p, v, t = self.unwrap(*self.expr(args[0]))
             if t != "int":
                 self.refuse(e, "stat.%s argument type %s" % (f.attr, t))
             t1 = self.fresh()
             return p + ["do %s <- %s %s;" % (t1, fn, v)], t1, rt
-        if d in EXTERNAL_FUNCTIONS and d.split(".")[0] not in self.ty:
+        if d in EXTERNAL_FUNCTIONS and self.is_module(d.split(".")[0]):
             fn, ats, rt = EXTERNAL_FUNCTIONS[d]
             if len(args) != len(ats):
                 self.refuse(e, "arity of " + d)
@@ -700,7 +733,7 @@ class FnTr:
                 pre += p
                 vs.append(v)
             return pre, "(%s %s)" % (fn, " ".join(vs)), rt
-        if d == "re.match" and "re" not in self.ty and "re" not in self.local_names():
+        if d == "re.match" and self.is_module("re"):
             if not (len(args) == 2 and isinstance(args[0], ast.Constant) and args[0].value in RE_MATCH_PATTERNS):
                 self.refuse(e, "re.match with a pattern the translator does not know")
             p, v, t = self.expr(args[1])
@@ -776,7 +809,8 @@ class FnTr:
         """self.<pat>.match(x) where self.<pat> = re.compile(<known pattern>, re.IGNORECASE)"""
         f, args = e.func, e.args
         v = self.self_attr_value(f.value.attr)
-        ok = isinstance(v, ast.Call) and self.dotted(v.func) == "re.compile" and len(v.args) == 2 and not v.keywords \
+        ok = isinstance(v, ast.Call) and self.dotted(v.func) == "re.compile" and self.is_module("re") \
+            and len(v.args) == 2 and not v.keywords \
             and isinstance(v.args[0], ast.Constant) and isinstance(v.args[0].value, str) \
             and self.dotted(v.args[1]) == "re.IGNORECASE"
         if not ok or f.attr != "match" or len(args) != 1 or e.keywords:
@@ -834,7 +868,7 @@ class FnTr:
     def stat_attr(self, e):
         """hasattr(stat, "NAME") / getattr(stat, "NAME") for the names of STAT_CONSTANTS"""
         fn, args = e.func.id, e.args
-        if len(args) == 2 and isinstance(args[0], ast.Name) and args[0].id == "stat" and "stat" not in self.ty \
+        if len(args) == 2 and isinstance(args[0], ast.Name) and args[0].id == "stat" and self.is_module("stat") \
                 and isinstance(args[1], ast.Constant) and args[1].value in STAT_CONSTANTS and not e.keywords:
             if fn == "hasattr":
                 return [], "true", "bool"
